@@ -471,6 +471,8 @@ class Run:
             if k["id"] in self.known_hits:
                 log("KNOWN-FINDING: property=%s %s (%s; %d cases this run)" % (self.pid, k["what"], k["id"], self.known_hits[k["id"]]))
         shutil.rmtree(self.wd, ignore_errors=True)
+        if self.drift:
+            log("MODEL-DRIFT: %d observation(s) satisfied the property but differ from the mechanism layer of the specification (not a violation)" % self.drift)
         if self.violations:
             for what, path in self.violations[:20]:
                 log("VIOLATION property=%s replay=%s" % (self.pid, path))
